@@ -4,10 +4,10 @@ import os, sys, subprocess, json
 VERIF = os.path.dirname(os.path.dirname(os.path.abspath(__file__)))
 sys.path.insert(0, os.path.join(VERIF, "engine"))
 import build
-src = sys.argv[1]
+srcs = sys.argv[1].split(",")
 cfg = sys.argv[2]
-name = os.path.basename(src)[:-4]
-exe_s, exe_n, mods, st = build.build_sbv_harness(name, [os.path.join(VERIF, "harness", "sbv", src)])
+name = os.path.basename(srcs[0])[:-4]
+exe_s, exe_n, mods, st = build.build_sbv_harness(name, [os.path.join(VERIF, "harness", "sbv", s) for s in srcs])
 env = dict(os.environ, SBV_MODULES=mods, SYM_JOBS="16", SYM_DEADLINE_S="300", SYM_QUERY_S="20", SYM_OUT="/tmp/sbvrun.json")
 for kv in sys.argv[3:]:
     k, v = kv.split("=", 1)
